@@ -409,5 +409,6 @@ def run(ctx):
             ok = a[0] == ('param', 1) and a[1] == ('param', 2) and peel(a[2], casts=True) == ('param', 3) and a[3] == ('param', 4) and const_val(a[4]) == size
         rep.check(r4, ok, 'wrapper:' + nm, '%s = %s(self, byte, value, next_state, %d) as %s: %s' % (nm, inner, size, ty, ok), '%s:%d' % (f.file, f.line))
     dispatch_sound(ctx, 'C17', 'a session message reaches the SMB responders')
+    no_abort_in(ctx, 'C17', r'proto::smb::|proto::dissector::', 'answering SMB')
 
 
